@@ -213,9 +213,10 @@ class CSSNamespaceRule(cssrule.CSSRule):
 
             # set all
             if wellformed:
+                # may raise and nothing is changed then
+                self.namespaceURI = new['uri']
                 self.atkeyword = new['keyword']
                 self._prefix = new['prefix']
-                self.namespaceURI = new['uri']
                 self._setSeq(newseq)
 
     cssText = property(
